@@ -132,11 +132,18 @@ def c12(ctx):
     ctx.build_harness()
     t1 = ctx.tlc_expect_ok("MC_Meta.tla", "MC_Meta_tags.cfg", tag="meta_tags")
     t2 = ctx.tlc_expect_ok("MC_Meta.tla", "MC_Meta_content.cfg", tag="meta_content")
+    # the content-attribute token strings are also rendered into pragmas and run through the real Detect
+    rpc = os.path.join(ctx.scratch, "meta_content.json")
+    ctx.vdrive(["metadocs", "-in", t2["out"], "-out", rpc])
+    crep = ctx.report(rpc)
     r, rep = _meta(ctx, "docs", not quick, "meta_docs")
+    rep["violations"] += crep["violations"]
+    rep["evaluations"] += crep["evaluations"]
+    rep["extra"]["declaration_applicable"] += crep["extra"]["declaration_applicable"]
     cov = dict(
         evaluations=rep["evaluations"],
         distinct_nontrivial=rep["extra"]["declaration_applicable"],
-        rule="model: the per-<meta> algorithm on all attribute lists of length <= 4 (%d) and fromMetaElement on %d structured content values agree with the reference. documents: label (%s) x {meta charset, http-equiv pragma} x quoting x attribute order x extra / duplicate attributes x letter case of tag and attribute names x whitespace layout x self-closing x 11 prologues (doctype, html/head, comment / script / title containing a fake meta, another meta, content without http-equiv, leading whitespace, a comment / script / style token of > 4 KiB) x {no mark, UTF-8 mark} x limit {0, default, just past the declaration}; XML: label x quote x {version+encoding, +standalone, spaced} x {none, whitespace, mark} x limit; each rendered by the concretiser and run through Detect; the reported charset must equal the specification's Expected. non-trivial = documents whose result type is text/html resp. text/xml" % (t1["distinct"], t2["distinct"], "8 labels" if quick else "20 labels"),
+        rule="model: the per-<meta> algorithm on all attribute lists of length <= 4 (%d) and fromMetaElement on %d structured content values agree with the reference (the content values are also rendered into pragmas and replayed). documents: label (%s) x {meta charset, http-equiv pragma} x quoting x attribute order x extra / duplicate attributes x letter case of tag and attribute names x whitespace layout x self-closing x 11 prologues (doctype, html/head, comment / script / title containing a fake meta, another meta, content without http-equiv, leading whitespace, a comment / script / style token of > 4 KiB) x {no mark, UTF-8 mark} x limit {0, default, just past the declaration}; XML: label x quote x {version+encoding, +standalone, spaced} x {none, whitespace, mark} x limit; each rendered by the concretiser and run through Detect; the reported charset must equal the specification's Expected. non-trivial = documents whose result type is text/html resp. text/xml" % (t1["distinct"], t2["distinct"], "8 labels" if quick else "20 labels"),
         exhaustive=True,
         result_types=rep["extra"]["result_types"],
         not_applicable_documents=rep["extra"]["result_type_other_than_html_xml"],
